@@ -290,6 +290,28 @@ void check_C05(Src &s, Ctx &ctx) {
     if (n_nodes) ctx.label("x:node"); if (st.n_refine > 0) ctx.label("hist:refined");
     ctx.label(own_transform ? "transform:twin-only" : "transform:spec");
     if (fd_skipped) ctx.label("fd:some-skipped"); if (fd_done) ctx.label("fd:compared");
+    // ---- after removePointsByHierarchicalCoefficient (one local polynomial case in four, from the last byte): the remaining basis functions keep their shape, their parents may be
+    // gone (several roots, disconnected hierarchy); differentiate() must still be the gradient of evaluate(). Compared at points (k + 1/3) h_j of the finest spacing h_j of the
+    // ORIGINAL grid in each direction - every break point of every basis function is a multiple of h_j - with central differences of step h_j / 1024.
+    if (sp.family == F_LOCALP && sp.order != 0 && s.n >= 3 && (s.p[s.n - 1] % 4) == 2 && st.g.getNumNeeded() == 0 && st.g.getNumLoaded() >= 5) {
+        TasmanianSparseGrid R = st.g; R.clearDomainTransform(); R.clearConformalTransform();
+        std::vector<double> P = R.getLoadedPoints(); int np = R.getNumLoaded(); const double *V = R.getLoadedValues(); double vmax = 1.0; for (size_t i = 0; i < (size_t)np * (size_t)outs; i++) vmax = std::max(vmax, std::fabs(V[i]));
+        std::vector<double> h((size_t)d, 2.0);
+        for (int j = 0; j < d; j++) { std::vector<double> c; for (int i = 0; i < np; i++) c.push_back(P[(size_t)i * (size_t)d + (size_t)j]); std::sort(c.begin(), c.end()); for (size_t i = 1; i < c.size(); i++) if (c[i] - c[i - 1] > 1e-9) h[(size_t)j] = std::min(h[(size_t)j], c[i] - c[i - 1]); }
+        int mode = s.p[s.n - 2] % 3; int out = (int)(s.p[s.n - 2] / 3) % outs;
+        if (mode == 0) R.removePointsByHierarchicalCoefficient(0.02, out); else if (mode == 1) R.removePointsByHierarchicalCoefficient(0.2, -1); else R.removePointsByHierarchicalCoefficient(std::max(2, np / 3), out);
+        ctx.log("after removePointsByHierarchicalCoefficient(" + std::string(mode == 0 ? "tol 0.02" : mode == 1 ? "tol 0.2, all outputs" : "keep a third") + "): " + std::to_string(R.empty() ? 0 : R.getNumLoaded()) + " of " + std::to_string(np) + " points left");
+        if (!R.empty() && R.getNumLoaded() > 0 && R.getNumLoaded() < np) {
+            for (int q = 0; q < 6; q++) { std::vector<double> x((size_t)d);
+                for (int j = 0; j < d; j++) { int cells = (int)std::floor(2.0 / h[(size_t)j] + 0.5); int k = (int)((unsigned)(s.p[(size_t)(q * 3 + j) % s.n] * 7u + (unsigned)q * 13u) % (unsigned)std::max(1, cells)); x[(size_t)j] = -1.0 + ((double)k + 1.0 / 3.0) * h[(size_t)j]; }
+                std::vector<double> J; R.differentiate(x, J);
+                for (int j = 0; j < d; j++) { double e = h[(size_t)j] / 1024.0; std::vector<double> xp = x, xm = x, yp, ym; xp[(size_t)j] += e; xm[(size_t)j] -= e; R.evaluate(xp, yp); R.evaluate(xm, ym);
+                    for (int k = 0; k < outs; k++) { double fd = (yp[(size_t)k] - ym[(size_t)k]) / (2 * e), dv = J[(size_t)k * (size_t)d + (size_t)j];
+                        ctx.close("C05.fd-after-removal", dv, fd, vmax + std::fabs(fd), 2e-3, [&]() { return "after removing points: differentiate vs central difference of evaluate at (" + joind(x) + ") output " + std::to_string(k) + " direction " + std::to_string(j); }); } }
+            }
+            ctx.count("fd-after-removal", 6); ctx.label("after-removal");
+        }
+    }
     ctx.nontrivial = (fd_done + exact_done + chain_done > 0) && ((local && sp.order != 1) || d >= 2 || !ta.empty());
 }
 VF_REGISTER(C05, check_C05, "grid spec (family biased towards local polynomials: all rules, orders -1,0..5; wavelets 1,3; Global incl. non-nested, unbounded, custom; Sequence; Fourier; d<=3, 1-3 outputs) "
